@@ -55,14 +55,17 @@ macro_rules! dlt_args {
                 output: Vec::default(),
             };
             // todo shall we iterate over all args and determine a rough length estimate?
-            let mut nr_args = 0;
+            let mut nr_args: usize = 0;
             $(
                     //$x.serialize(&mut serializer)?;
                     $crate::serde_verb_payload::add_to_serializer(&mut serializer, &$x)?;
                     nr_args += 1;
             )*
-            // todo return err if nr_args > 0xff?
-            Ok((nr_args, serializer.output))
+            if nr_args > 0xff {
+                // noar is a single byte
+                return Err($crate::serde_verb_payload::Error::DataTooLarge);
+            }
+            Ok((nr_args as u8, serializer.output))
         })()
     };
 }
